@@ -37,11 +37,12 @@ for r in prove.run():
         if o["verdict"] != "discharged":
             continue
         name = o["name"].split("[")[0] if o["name"].endswith("]") else o["name"]
-        h = hints.setdefault(name, {"backends": [], "max_time": 0.0, "per_backend": {}})
-        if o["backend"] not in h["backends"]:
-            h["backends"].append(o["backend"])
-        h["max_time"] = max(h["max_time"], o["time"])
-        h["per_backend"][o["backend"]] = max(h["per_backend"].get(o["backend"], 0.0), o["time"])
+        for key in (name, name + "|" + "/".join(o.get("trace") or [])):
+            h = hints.setdefault(key, {"backends": [], "max_time": 0.0, "per_backend": {}})
+            if o["backend"] not in h["backends"]:
+                h["backends"].append(o["backend"])
+            h["max_time"] = max(h["max_time"], o["time"])
+            h["per_backend"][o["backend"]] = max(h["per_backend"].get(o["backend"], 0.0), o["time"])
 hints = {k: v for k, v in hints.items() if v["max_time"] > 0.5 or v["backends"] != ["z3"]}
 json.dump(hints, open("/verif/baseline/hints.json", "w"), indent=1, sort_keys=True)
 print(len(hints), "solver hints")
